@@ -90,7 +90,7 @@ def regenerate():
 
 def gen_drift():
     """Compare coq/gen with coq/gen_golden; return list of differing files."""
-    g, gg = os.path.join(COQ, "gen"), os.path.join(COQ, "gen_golden")
+    g, gg = os.path.join(COQ, "gen"), os.path.join(ROOT, "golden")
     diff = []
     if not os.path.isdir(gg):
         return diff
@@ -154,17 +154,17 @@ def static_scan():
     return bad
 
 
-def cargo_build(profile, timeout=1500):
+def cargo_build(profile, binname, timeout=1500):
     lock_src = os.path.join(REPO, "Cargo.lock")
     lock_dst = os.path.join(HARNESS, "Cargo.lock")
     if not os.path.exists(lock_dst):
         import shutil
         shutil.copy(lock_src, lock_dst)
-    cmd = ["cargo", "build", "--offline", "--profile", profile]
+    cmd = ["cargo", "build", "--offline", "--profile", profile, "--bin", binname]
     env = {"RUSTFLAGS": "--cfg twenty_first_verif"}
     rc, out, dt = sh(cmd, cwd=HARNESS, timeout=timeout, env=env)
     sub = "release" if profile == "release" else profile
-    return rc, out, os.path.join(HARNESS, "target", sub, "tfh"), dt
+    return rc, out, os.path.join(HARNESS, "target", sub, binname), dt
 
 
 def ocaml_build(gen_dir, driver, timeout=600):
@@ -301,7 +301,7 @@ def main_check(mod, argv):
         exes = {}
         if getattr(mod, "HARNESS", None):
             for prof in mod.PROFILES:
-                rc, out, exe, dt = cargo_build(prof)
+                rc, out, exe, dt = cargo_build(prof, mod.HARNESS)
                 if rc != 0:
                     tail = "\n".join(out.strip().splitlines()[-25:])
                     violations.append({"kind": "harness-build-failed", "profile": prof, "detail": tail,
@@ -340,7 +340,7 @@ def main_check(mod, argv):
     run_to = getattr(mod, "RUN_TIMEOUT", {"quick": 600, "thorough": 3000})[tier]
     if lines and getattr(mod, "HARNESS", None):
         for prof, exe in exes.items():
-            res, err, dt = run_lines(exe, [mod.HARNESS], lines, run_to, getattr(mod, "ENV", None))
+            res, err, dt = run_lines(exe, [], lines, run_to, getattr(mod, "ENV", None))
             if res is None:
                 violations.append({"kind": "harness-timeout", "profile": prof, "detail": err, "no_input": True})
             else:
